@@ -441,6 +441,7 @@ pub fn run(o: &Opts, stats: &mut Stats) -> Option<usize> {
                 if idx % stride != 0 && !id_of(c).contains('d') {
                     continue;
                 }
+                set_now_cfg(json!({"case": ci, "path": pi, "existing": existing, "rule": format!("{:?}", c)}).to_string());
                 stats.configs += 1;
                 stats.executions += 1;
                 stats.states.insert(idx as u64);
